@@ -8,7 +8,8 @@
 (*           through several runs by position)                             *)
 (*    bws  - whether optional whitespace is inserted at every position     *)
 (*           where the grammar allows it                                   *)
-(*    kc   - letter case of keywords: "l" lower, "u" UPPER, "c" Capitalised*)
+(*    kc   - letter case of keywords: "l" lower, "u" UPPER, "c" Capitalised,*)
+(*           "m" mIxEd                                                     *)
 (* The expected AST is the tree itself with literal spellings re-cased     *)
 (* (same Python values).  Model-level theorem: the spec lexer+parser read  *)
 (* every layout as the expected tree.                                      *)
@@ -39,8 +40,9 @@ Expand(s) == { <<0, x>> : x \in Preds }
        \cup { <<1, Bool(o, HB, HB)>> : o \in {"and", "or"} }
        \cup { <<1, Un("not", HB)>> }
 
-WsRuns == << <<32>>, <<32, 32>>, <<9>>, <<10>>, <<13, 10>>, <<32, 9, 10, 32>> >>
-Layouts == { [ws |-> w, bws |-> bw, kc |-> k] : w \in (1..Len(WsRuns)) \cup {0}, bw \in BOOLEAN, k \in {"l", "u", "c"} }
+\* (the last two: runs longer than any bound a "hardened" whitespace rule might put on them)
+WsRuns == << <<32>>, <<32, 32>>, <<9>>, <<10>>, <<13, 10>>, <<32, 9, 10, 32>>, [i \in 1..20 |-> 32], <<10>> \o [i \in 1..17 |-> 9] >>
+Layouts == { [ws |-> w, bws |-> bw, kc |-> k] : w \in (1..Len(WsRuns)) \cup {0}, bw \in BOOLEAN, k \in {"l", "u", "c", "m"} }
 NoLay == [ws |-> -1]
 
 Init == t = HB /\ n = 0 /\ lay = NoLay
@@ -55,7 +57,9 @@ Next == Fill \/ Lay
 IsCase == lay # NoLay
 
 \* ---- casing
+\* "m": mIxEd (letters alternate, lower case first)
 Recase(cps, k) == IF k = "l" THEN LowerSeq(cps) ELSE IF k = "u" THEN UpperSeq(cps)
+                  ELSE IF k = "m" THEN [i \in 1..Len(cps) |-> IF i % 2 = 1 THEN Lower(cps[i]) ELSE Upper(cps[i])]
                   ELSE IF cps = <<>> THEN cps ELSE <<Upper(cps[1])>> \o LowerSeq(Tail(cps))
 \* keyword letters inside literals: null/true/false, the T/Z of date-times, the exponent e
 CaseLitVal(kind, v, k) ==
